@@ -121,4 +121,19 @@ PROPS["C18"] = dict(
     assumptions=["keys are used in hex-nibble form with terminator, as keybytesToHex produces"],
 )
 
+PROPS["C04"] = dict(
+    lean_modules=["QuaiVerif.Props.C04"],
+    areas=[dict(name="etxq", n_quick=60, n_thorough=1500, seeds_thorough=2, n_search=200, timeout=3000)],
+    rule="a case is one history of 5-300 PushETX / PushETXs(0-3) / PopETX / ReadETX / counter reads on a real StateDB ETX trie with CommitEtxs+reload at "
+         "arbitrary points, over real ExternalTx objects (random value/data/access list/type); includes empty-queue pops and index growth past one byte; plus a "
+         "copy-independence probe (mutating NewTx(etx.Inner()) must not change the original). Every case non-trivial; distinct by sub-seed",
+    level_text="(a) the destination queue refines a FIFO list for every push/pop history and (b) acceptance implies the block's inbound ETXs are exactly the "
+               "next queue items with the minimum-inclusion bound met are Lean theorems (invariant + induction over histories); the queue model, and the ETX-trie "
+               "root recomputed by the Lean trie model with concrete keccak, are compared with the real StateDB on random histories incl. reload.",
+    level_note="PARTIAL: part (c) of the property - exactly-once, in-order routing of every emitted ETX through region/prime (manifests, rollups, "
+               "CollectNewlyConfirmedEtxs, FilterToSub) and across reorgs - is not modelled yet: it needs the level-isolation harness (DESIGN section 5). The "
+               "acceptance rule (b) is proved on the model; its tie to Process is through the shared pop semantics only until the zone chain harness exists.",
+    assumptions=["keccak256 collision-free for the secure-trie keys (index keys are minimal big-endian, counter keys are 32-byte strings with leading zeros)"],
+)
+
 NOT_APPLICABLE = {}
